@@ -107,6 +107,7 @@ SCENARIOS = {
     "reuse within glyph: copy transform>radial": lambda: [("e000", [(SQ, lambda: RED), (SQ2, lambda: xf(rad()))])],
     "reuse within glyph: copy skew>radial": lambda: [("e000", [(SQ, lambda: RED), (SQ2, lambda: xf(rad(), "k"))])],
     "reuse across glyphs: donor listed first, sorts last": lambda: [("u1F602", [(SQ, lambda: RED)]), ("u1F600", [(SQ2, lambda: GREEN)]), ("u1F601", [(TRI, lambda: RED), (SQ3, lambda: lin())])],
+    "reuse across glyphs: names in a prefix relation, longer name listed first": lambda: [("g_1f468_1f3fb", [(SQ, lambda: RED)]), ("g_1f468", [(SQ2, lambda: GREEN), (TRI, lambda: RED)])],
     "two docs, same gradient in both": lambda: [("e000", [(TRI, lambda: lin("g"))]), ("e001", [("M1,1 L9,1 L9,7 Z", lambda: lin("g"))])],
     "one doc, two gradients differing only in residual transform": lambda: [("e000", [(SQ, lambda: xf(rad("s"), "a"))]), ("e001", [(SQ2, lambda: xf(rad("s"), "b"))])],
     "three unrelated glyphs listed out of name order": lambda: [("e002", [(TRI, lambda: RED)]), ("e000", [("M1,1 L9,1 L9,7 Z", lambda: GREEN)]), ("e001", [("M2,2 L8,2 L2,9 Z", lambda: RED)])],
